@@ -278,7 +278,16 @@ Inductive start := Call (a : actor) (o : op) | Cancel | Deadline.
 
 Definition apply_start (s : st) (x : start) : option st :=
   match x with
-  | Call a o => match get_pend s a with None => Some (set_pend s a (Some (PStart o))) | Some _ => None end
+  | Call a o =>
+      match get_pend s a with
+      | None =>
+          (* a handler returns once *)
+          match o with
+          | HReturn _ => if svrDone s then None else Some (set_pend s a (Some (PStart o)))
+          | _ => Some (set_pend s a (Some (PStart o)))
+          end
+      | Some _ => None
+      end
   | Cancel => Some (if cctx s =? 0 then upd_ctx s 1 else s)
   | Deadline => Some (if cctx s =? 0 then upd_ctx s 2 else s)
   end.
